@@ -30,7 +30,7 @@ def outSexp (o : Outcome) : String :=
   | .fuel _ => "(lex" ++ body ++ " (fuel))"
 
 /-- known-finding classes (decidable on the input); see known_findings.json -/
-def classOf (src : List Char) : String := "-"
+def classOf (src : List Char) : String := if lineDriftClass src then "C08-line-drift" else "-"
 
 def verdict (src : List Char) (o : Outcome) : String × String :=
   let chars := (normalizeNewline src).toArray
